@@ -14,6 +14,9 @@ Inductive qcase :=
        (res : pclass) (owner_has : bool) (backups_have : list bool)
 | CGet (RQ : nat) (now_ms : Z) (local : option entry) (backups : list (bool * option entry))
        (res : gclass)
+(* a read with ReadRepair on: result and, per holder, the (value, timestamp) of its copy after the read *)
+| CGetRR (RQ : nat) (now_ms : Z) (local : option entry) (backups : list (bool * option entry))
+         (res : gclass) (after_local : option (list N * Z)) (after_backups : list (option (list N * Z)))
 | CIncr (RQ : nat) (now_ms : Z) (local : option entry) (backups : list (bool * option entry)) (res : iclass)
 | CServe (registered : list bytes) (num_members mcq : Z) (name : bytes) (args : list bytes) (res : rclass)
 | CNewDMap (num_members mcq : Z) (res : rclass).
@@ -46,10 +49,32 @@ Definition rclass_eqb (a b : rclass) : bool :=
   match a, b with QClusterQuorum, QClusterQuorum | QHandled, QHandled | QUnknown, QUnknown
                 | QWrongArgs, QWrongArgs => true | _, _ => false end.
 
+Definition copy_eqb (a b : option (list N * Z)) : bool :=
+  match a, b with
+  | None, None => true
+  | Some (v, t), Some (v', t') => bytes_eqb v v' && Z.eqb t t'
+  | _, _ => false
+  end.
+Fixpoint copies_eqb (a b : list (option (list N * Z))) : bool :=
+  match a, b with [], [] => true | x :: a', y :: b' => copy_eqb x y && copies_eqb a' b' | _, _ => false end.
+
+(* the layout of a CGetRR case as the [copies] / [reach] of Model/Quorum.v cluster_get (no previous owners) *)
+Definition layout_copies (local : option entry) (backups : list (bool * option entry)) : copies :=
+  fun s => match s with
+           | SPrimary HLocal => local
+           | SBackupFrag (HBackup i) => nth i (map snd backups) None
+           | _ => None
+           end.
+Definition layout_reach (backups : list (bool * option entry)) : holder -> bool :=
+  fun h => match h with HBackup i => nth i (map fst backups) false | _ => true end.
+Definition proj_copy (o : option entry) : option (list N * Z) :=
+  match o with Some e => Some (e_val e, e_ts e) | None => None end.
+
 (* model observation of a case, rendered in the same classes *)
 Inductive qobs :=
 | MPutObs (res : pclass) (owner_has : bool) (backups_have : list bool)
 | MGetObs (res : gclass)
+| MGetRRObs (res : gclass) (after_local : option (list N * Z)) (after_backups : list (option (list N * Z)))
 | MIncrObs (res : iclass)
 | MReply (res : rclass).
 
@@ -63,6 +88,12 @@ Definition run_case (c : qcase) : option qobs :=
     let answers := map (fun p => remote_answer now (fst p) (snd p)) backups in
     let '(r, _) := get_on_cluster RQ false false now local [] answers in
     if gclass_eqb (gclass_of r) res then None else Some (MGetObs (gclass_of r))
+  | CGetRR RQ now local backups res al ab =>
+    let '(r, c') := cluster_get RQ true false now 0 (length backups) (layout_reach backups) (layout_copies local backups) in
+    let ml := proj_copy (c' (SPrimary HLocal)) in
+    let mb := map (fun i => proj_copy (c' (SBackupFrag (HBackup i)))) (seq 0 (length backups)) in
+    if gclass_eqb (gclass_of r) res && copy_eqb ml al && copies_eqb mb ab then None
+    else Some (MGetRRObs (gclass_of r) ml mb)
   | CIncr RQ now local backups res =>
     let answers := map (fun p => remote_answer now (fst p) (snd p)) backups in
     let value_of := fun e : entry => match parse_int 64 (e_val e) with Some z => z | None => 0%Z end in
